@@ -166,7 +166,7 @@ def run(tier, seed, replay=None):
     outs = C.run_model(lines)
     evals = 0
     nontriv = set()
-    corr_bad = None
+    corr_bad = C.Corr()
     samples = []
     for st, ent in zip(steps, idx):
         evals += 1
@@ -178,15 +178,15 @@ def run(tier, seed, replay=None):
         else:
             mp = ('Err', (tk.word(), tk.word())[1]) if tk.peek() == 'Err' else ('Ok', (tk.word(), O.read_obj(tk))[1])
         if mp[0] == 'Err':
-            if st['err'] != mp[1] and corr_bad is None:
-                corr_bad = dict(case, what='L1: model raises %s, implementation %s' % (mp[1], st['err'] or 'succeeds'))
+            if st['err'] != mp[1] and corr_bad.open():
+                corr_bad += dict(case, what='L1: model raises %s, implementation %s' % (mp[1], st['err'] or 'succeeds'))
         elif st['err'] is not None:
-            if corr_bad is None:
-                corr_bad = dict(case, what='L1: implementation raises %s, model succeeds' % st['err'])
+            if corr_bad.open():
+                corr_bad += dict(case, what='L1: implementation raises %s, model succeeds' % st['err'])
         else:
             dfr = O.snaps_differ(post, mp[1])
-            if dfr and corr_bad is None:
-                corr_bad = dict(case, what='L1: post-state differs from model: ' + dfr)
+            if dfr and corr_bad.open():
+                corr_bad += dict(case, what='L1: post-state differs from model: ' + dfr)
         # ---- L2
         if st['err'] is not None:
             expected_err = False
@@ -248,7 +248,7 @@ def run(tier, seed, replay=None):
             dfr = O.snaps_differ(c_, b)
             if dfr:
                 V.failure({'what': 'swap is not an involution: ' + dfr, 'obj': O.spec_json(b), 'op': 'swap', 'args': [d1, d2]})
-    rc = V.finish(l0, corr_bad if not V.fail else None)
+    rc = V.finish(l0, corr_bad)
     C.write_evidence(PID, tier, seed, l0, {
         'evaluations': evals + ninv, 'distinct_nontrivial': len(nontriv),
         'rule': 'random objects (pardim 1-3, periodic and non-periodic directions, rational 40%%); histories of %d operations drawn from '
